@@ -1043,6 +1043,14 @@ func corpusTexts() []string {
 	for _, ca := range casesMultivariant {
 		out = append(out, ca.input)
 	}
+	// in-code seeds for state the decoder carries from one segment to the next: byte ranges without offset (each
+	// continues the previous one of the same resource) at the head of the playlist, after a segment without a range
+	// and after another resource; keys and maps that change between segments
+	out = append(out,
+		"#EXTM3U\n#EXT-X-VERSION:4\n#EXT-X-TARGETDURATION:2\n#EXTINF:2,\n#EXT-X-BYTERANGE:10\na.ts\n#EXTINF:2,\n#EXT-X-BYTERANGE:10\na.ts\n#EXTINF:2,\n#EXT-X-BYTERANGE:10\na.ts\n#EXT-X-ENDLIST\n",
+		"#EXTM3U\n#EXT-X-VERSION:4\n#EXT-X-TARGETDURATION:2\n#EXTINF:2,\nplain.ts\n#EXTINF:2,\n#EXT-X-BYTERANGE:10\na.ts\n#EXTINF:2,\n#EXT-X-BYTERANGE:10\na.ts\n#EXTINF:2,\n#EXT-X-BYTERANGE:7@3\nb.ts\n#EXTINF:2,\n#EXT-X-BYTERANGE:10\na.ts\n#EXTINF:2,\n#EXT-X-BYTERANGE:10\na.ts\n",
+		"#EXTM3U\n#EXT-X-VERSION:7\n#EXT-X-TARGETDURATION:2\n#EXT-X-MAP:URI=\"i.mp4\",BYTERANGE=\"10@0\"\n#EXT-X-KEY:METHOD=AES-128,URI=\"k1\"\n#EXTINF:2,\n#EXT-X-BYTERANGE:10@10\na.mp4\n#EXT-X-KEY:METHOD=NONE\n#EXTINF:2,\n#EXT-X-BYTERANGE:10\na.mp4\n#EXT-X-MAP:URI=\"i2.mp4\"\n#EXT-X-KEY:METHOD=AES-128,URI=\"k2\",IV=0x00000000000000000000000000000001\n#EXTINF:2,\n#EXT-X-BYTERANGE:10\na.mp4\n",
+	)
 	dirs, _ := filepath.Glob("testdata/fuzz/*")
 	sort.Strings(dirs)
 	for _, d := range dirs {
